@@ -83,7 +83,9 @@ def generate(rng, tier, index):
             return None
         inputs = rng.sample(rg, rng.randint(1, len(rg))) if rng.random() < 0.7 else None
         if kind == "jd":
-            call = {"api": "backward", "tensors": outs, "inputs": inputs, "agg": gen_det_agg(rng, rows, dtype, linear_only=True), "chunk": rng.choice([None, 1, 2, rows + 1]), "retain": retain}
+            from ..world import gen_forms
+
+            call = {"api": "backward", "tensors": outs, "inputs": inputs, "agg": gen_det_agg(rng, rows, dtype, linear_only=True), "chunk": rng.choice([None, 1, 2, rows + 1]), "retain": retain, "forms": gen_forms(rng)}
             steps.append({"kind": "jd", "call": call})
         else:
             w = [rng.randint(-8, 8) / 4.0 for _ in range(rows)]
